@@ -1,4 +1,275 @@
+"""Run one Kani unit: a group of harnesses compiled inside a crate of /repo (cfg(kani) hook) or in a
+stand-alone harness crate under /verif/kani-crates whose sources are extracted from /repo.
+
+Harnesses are run in several `cargo kani` processes (sequential inside each process): Kani's own
+`-j` mode dead-locked here (measured), and one process per harness pays cargo's start-up each time.
+
+Result dict has the same shape as verus_unit.run_unit; each harness is a "function" with
+obligations = number of CBMC checks in `** k of N failed`.
+"""
+import concurrent.futures as cf
+import json
+import os
+import re
+import shutil
+import subprocess
+import time
+
+CARGO = shutil.which("cargo") or "cargo"
+
+
+def _run(cmd, cwd, timeout, env=None):
+    e = dict(os.environ)
+    e["CARGO_NET_OFFLINE"] = "true"
+    e.pop("RUSTUP_TOOLCHAIN", None)
+    if env:
+        e.update(env)
+    t0 = time.time()
+    try:
+        p = subprocess.Popen(cmd, cwd=cwd, stdout=subprocess.PIPE, stderr=subprocess.STDOUT, text=True,
+                             env=e, start_new_session=True)
+        try:
+            out, _ = p.communicate(timeout=timeout)
+            rc = p.returncode
+        except subprocess.TimeoutExpired:
+            import signal
+            try:
+                os.killpg(p.pid, signal.SIGKILL)
+            except Exception:
+                pass
+            out, _ = p.communicate()
+            rc = 124
+    except OSError as ex:
+        return 127, str(ex), 0.0
+    return rc, out, time.time() - t0
+
+
+_rx_check = re.compile(r"Checking harness (\S+?)\.\.\.")
+_rx_sum = re.compile(r"\*\* (\d+) of (\d+) failed")
+_rx_cover = re.compile(r"\*\* (\d+) of (\d+) cover properties satisfied")
+_rx_failed_check = re.compile(r"^Failed Checks: (.*)$")
+
+
+def parse_output(out):
+    """-> {harness: {status, checks, failed, covers, covers_sat, failed_checks, time}}"""
+    res = {}
+    cur = None
+    for line in out.split("\n"):
+        line = re.sub(r"^Thread \d+: ", "", line)
+        m = _rx_check.search(line)
+        if m:
+            cur = m.group(1)
+            res[cur] = {"status": None, "checks": 0, "failed": 0, "covers": 0, "covers_sat": 0,
+                        "failed_checks": [], "time": None}
+            continue
+        if cur is None:
+            continue
+        m = _rx_sum.search(line)
+        if m:
+            res[cur]["failed"] = int(m.group(1))
+            res[cur]["checks"] = int(m.group(2))
+        m = _rx_cover.search(line)
+        if m:
+            res[cur]["covers_sat"] = int(m.group(1))
+            res[cur]["covers"] = int(m.group(2))
+        m = _rx_failed_check.match(line.strip())
+        if m:
+            res[cur]["failed_checks"].append(m.group(1))
+        if "VERIFICATION:- SUCCESSFUL" in line:
+            res[cur]["status"] = "ok"
+        elif "VERIFICATION:- FAILED" in line:
+            res[cur]["status"] = "failed"
+        m = re.search(r"Verification Time: ([0-9.]+)s", line)
+        if m:
+            res[cur]["time"] = float(m.group(1))
+    return res
+
+
+def _cargo_kani_cmd(k, target_dir, harnesses, extra=None):
+    cmd = [CARGO, "kani"]
+    if k.get("package"):
+        cmd += ["-p", k["package"]]
+    cmd += ["--target-dir", target_dir, "--output-format", "terse"]
+    cmd += k.get("flags", [])
+    if k.get("features"):
+        cmd += ["--features", ",".join(k["features"])]
+    if extra:
+        cmd += extra
+    for h in harnesses:
+        cmd += ["--harness", h]
+    cmd += ["--exact"]
+    return cmd
+
+
 def run_unit(k, repo, root, build_root, tier):
-    raise NotImplementedError
+    name = k["name"]
+    res = {"unit": name, "backend": "kani", "status": "undecided", "functions": [], "failures": [],
+           "undecided": [], "obligations": 0, "discharged": 0, "trusted": [], "extraction": [],
+           "smt_time_ms": 0, "wall_s": 0.0, "checker_cmd": "", "twin": None,
+           "bounded": k.get("bounded")}
+    t0 = time.time()
+    harnesses = list(k["quick"]) if tier == "quick" else list(k.get("thorough") or k["quick"])
+    prefix = k.get("module", "")
+    full = [(prefix + "::" + h) if prefix else h for h in harnesses]
+    cwd = k["cwd"](repo, root) if callable(k.get("cwd")) else (k.get("cwd") or repo)
+    # stand-alone crate: regenerate its extracted sources first
+    if k.get("prepare"):
+        try:
+            res["extraction"] = k["prepare"](repo, root)
+        except Exception as e:  # VxError and friends
+            res["undecided"].append("extraction: %s" % e)
+            res["wall_s"] = time.time() - t0
+            return res
+    target_dir = os.path.join(root, ".cache", "kani-target-" + k.get("target_tag", "repo"))
+    os.makedirs(target_dir, exist_ok=True)
+    # trusted-base scan of the harness file(s)
+    for hf in k.get("harness_files", []):
+        try:
+            for i, line in enumerate(open(os.path.join(root, hf), encoding="utf-8"), 1):
+                s = line.strip()
+                if s.startswith("//"):
+                    continue
+                if re.search(r"kani::assume|kani::stub|stub_verified|#\[kani::unwind", s):
+                    res["trusted"].append("%s:%d: %s" % (hf, i, s[:160]))
+        except OSError:
+            pass
+    # 1. build once (so that the parallel runs below find a fresh build and do not serialise on it)
+    bcmd = _cargo_kani_cmd(k, target_dir, full[:1], extra=["--only-codegen"])
+    rc, out, w = _run(bcmd, cwd, k.get("build_timeout", 900))
+    if rc != 0:
+        res["undecided"].append("kani build failed (rc=%s): %s" % (rc, out[-1500:]))
+        res["wall_s"] = time.time() - t0
+        return res
+    # 2. run in chunks
+    nproc = k.get("procs", 8)
+    chunks = [full[i::nproc] for i in range(nproc) if full[i::nproc]]
+    per_timeout = k.get("timeout", 300)
+    allres = {}
+    cmds = []
+
+    def work(chunk):
+        cmd = _cargo_kani_cmd(k, target_dir, chunk)
+        rc, out, w = _run(cmd, cwd, per_timeout * max(1, len(chunk)) if k.get("timeout_per_harness") else per_timeout)
+        return chunk, cmd, rc, out, w
+
+    with cf.ThreadPoolExecutor(max_workers=nproc) as pool:
+        for chunk, cmd, rc, out, w in pool.map(work, chunks):
+            cmds.append(" ".join(cmd[:12]) + " ...")
+            pr = parse_output(out)
+            for h in chunk:
+                r = pr.get(h)
+                if r is None or r["status"] is None:
+                    allres[h] = {"status": "timeout" if rc == 124 else "noresult", "checks": 0, "failed": 0,
+                                 "covers": 0, "covers_sat": 0, "failed_checks": [], "time": None,
+                                 "tail": out[-600:]}
+                else:
+                    allres[h] = r
+    res["checker_cmd"] = " ".join(_cargo_kani_cmd(k, target_dir, ["<harness>"]))
+    for h in full:
+        r = allres[h]
+        short = h[len(prefix) + 2:] if prefix and h.startswith(prefix + "::") else h
+        ok = r["status"] == "ok"
+        res["functions"].append({"name": short, "mode": "kani", "success": ok, "obligations": r["checks"],
+                                 "time_us": int((r["time"] or 0) * 1e6),
+                                 "sample_obligations": ["%d CBMC checks (assertions, overflow, bounds, "
+                                                        "pointer validity) for harness %s" % (r["checks"], short)]})
+        res["smt_time_ms"] += int((r["time"] or 0) * 1000)
+        if r["status"] == "failed":
+            rec = {"function": short, "kind": "kani-check", "message": "; ".join(r["failed_checks"])[:600]
+                   or "verification failed", "gen_line": None, "text": h, "source": k.get("source_hint"),
+                   "labels": [], "id": "%s/%s/kani-check" % (name, short)}
+            cex = counterexample(k, target_dir, cwd, h)
+            if cex:
+                rec["counterexample"] = cex
+            res["failures"].append(rec)
+        elif r["status"] in ("timeout", "noresult"):
+            res["undecided"].append("harness %s: %s %s" % (short, r["status"], r.get("tail", "")[-300:]))
+        elif r["covers"] != r["covers_sat"]:
+            res["undecided"].append("vacuity: harness %s: only %d of %d cover properties satisfied "
+                                    "(precondition unsatisfiable?)" % (short, r["covers_sat"], r["covers"]))
+    res["obligations"] = sum(f["obligations"] for f in res["functions"])
+    res["discharged"] = sum(f["obligations"] for f in res["functions"] if f["success"])
+    res["wall_s"] = time.time() - t0
+    if res["undecided"]:
+        res["status"] = "undecided"
+    elif res["failures"]:
+        res["status"] = "refuted"
+    elif res["obligations"] > 0:
+        res["status"] = "ok"
+    else:
+        res["undecided"].append("vacuity: zero checks")
+    return res
+
+
+def counterexample(k, target_dir, cwd, harness):
+    """re-run one failing harness with concrete playback and return the generated test text"""
+    cmd = _cargo_kani_cmd(k, target_dir, [harness],
+                          extra=["-Z", "concrete-playback", "--concrete-playback=print"])
+    cmd = [c for c in cmd if c != "terse"]
+    # --output-format terse was removed together with its flag
+    cmd = [c for c in cmd if c != "--output-format"]
+    rc, out, w = _run(cmd, cwd, k.get("timeout", 300))
+    m = re.search(r"(#\[test\]\s*fn kani_concrete_playback_[\s\S]*?\n}\n)", out)
+    if not m:
+        m = re.search(r"```\s*\n(#\[test\][\s\S]*?)```", out)
+    if m:
+        return {"playback_test": m.group(1), "harness": harness, "cmd": " ".join(cmd)}
+    return None
+
+
 def replay(rep, repo, root):
-    raise NotImplementedError
+    """Native replay: Kani writes the concrete-playback unit test next to the harness
+    (`--concrete-playback=inplace`, on the harness file under /verif/kani, restored afterwards) and
+    `cargo kani playback` runs it as an ordinary `#[test]`: the real function is executed natively
+    on the counterexample and the harness assertion fails there."""
+    import registry
+    cex = rep.get("counterexample") or {}
+    print(cex.get("playback_test", ""))
+    k = None
+    for prop, spec in registry.PROPS.items():
+        for kk in spec.get("kani", []):
+            if kk["name"] == rep["unit"]:
+                k = kk
+    if k is None or not cex.get("harness"):
+        print("no kani unit / harness recorded in the replay file")
+        return 2
+    cwd = k["cwd"](repo, root) if callable(k.get("cwd")) else (k.get("cwd") or repo)
+    if k.get("prepare"):
+        k["prepare"](repo, root)
+    target_dir = os.path.join(root, ".cache", "kani-target-" + k.get("target_tag", "repo"))
+    files = [os.path.join(root, f) for f in k.get("harness_files", [])]
+    backups = {f: open(f, encoding="utf-8").read() for f in files}
+    try:
+        cmd = _cargo_kani_cmd(k, target_dir, [cex["harness"]],
+                              extra=["-Z", "concrete-playback", "--concrete-playback=inplace"])
+        cmd = [c for c in cmd if c not in ("terse", "--output-format")]
+        rc, out, w = _run(cmd, cwd, k.get("timeout", 300))
+        m = re.search(r"- (kani_concrete_playback_\w+)", out)
+        if not m:
+            print("kani produced no playback test (the harness no longer fails?)")
+            print(out[-600:])
+            return 0 if "VERIFICATION:- SUCCESSFUL" in out else 2
+        test = m.group(1)
+        cmd = [CARGO, "kani", "playback", "-Z", "concrete-playback"]
+        if k.get("package"):
+            cmd += ["-p", k["package"]]
+        if k.get("features"):
+            cmd += ["--features", ",".join(k["features"])]
+        # the test lands next to the harness (inside a macro body it is instantiated once per type):
+        # run exactly the instance that lives in the failing harness' module
+        modpath = cex["harness"].rsplit("::", 1)[0]
+        cmd += ["--", modpath + "::" + test, "--exact"]
+        rc, out, w = _run(cmd, cwd, 1800, env={"CARGO_TARGET_DIR": target_dir + "-playback"})
+        tail = [l for l in out.split("\n") if re.search(r"^test |panicked|assertion|test result", l)]
+        print("\n".join(tail[-12:]))
+        if re.search(r"test result: FAILED|\.\.\. FAILED", out):
+            print("REPRODUCED natively: %s fails on the real code with the counterexample" % test)
+            return 1
+        if re.search(r"test result: ok", out):
+            print("not reproduced: the playback test passes natively")
+            return 0
+        print(out[-800:])
+        return 2
+    finally:
+        for f, txt in backups.items():
+            open(f, "w", encoding="utf-8").write(txt)
